@@ -319,12 +319,17 @@ def gen_docs(tier):
                 singles1.append(b % ((x,) * k))
     docs = [(d, True) for d in docs]
     # pairs of blocks
-    rep = singles1 if not q else singles1[::7]
+    # (thorough: every third single block in both positions, and EVERY single block before and after every block kind
+    # with plain content; the full square of all single blocks would be 16 million documents)
+    rep = singles1[::3] if not q else singles1[::7]
     for a, b in itertools.product(rep, repeat=2):
-        docs.append((a + b, not q))
+        docs.append((a + b, False))
     if not q:
         small = [b % (("x",) * b.count("%s")) for b in BLOCKS] + [b % (("'''x'''",) * b.count("%s")) for b in BLOCKS[:6]]
-        core = singles1[::5]
+        for a, b in itertools.product(singles1, small):
+            docs.append((a + b, True))
+            docs.append((b + a, True))
+        core = singles1[::9]
         for a, b, c in itertools.product(small, core, small):
             docs.append((a + b + c, False))
     return docs
